@@ -1055,6 +1055,8 @@ struct EffCfg {
     fname: &'static str,
     gname: &'static str,
     params: &'static [(&'static str, &'static str)],   // rust free variable -> Gallina parameter
+    fparams: &'static str,                             // extra (typed) parameters, e.g. "(sd sh : N -> seek_ans)", and their names
+    fnames: &'static str,
     ghosts: &'static [&'static str],
     oracles: &'static [Oracle],
     ignore: &'static [&'static str],                   // statements containing these calls are dropped
@@ -1139,7 +1141,10 @@ impl<'a> Eff<'a> {
         }
         match st {
             Stmt::Local(l) => {
-                let name = pat_ident(&l.pat).ok_or("unsupported let pattern")?;
+                let name = match &l.pat {
+                    Pat::Tuple(t) if t.elems.len() == 2 => format!("{},{}", pat_ident(&t.elems[0]).ok_or("tuple binder")?, pat_ident(&t.elems[1]).ok_or("tuple binder")?),
+                    p => pat_ident(p).ok_or("unsupported let pattern")?,
+                };
                 let init = &l.init.as_ref().ok_or("let without initialiser")?.expr;
                 if let Expr::Match(m) = &**init {
                     if let Some((o, args)) = self.find_oracle(&m.expr) {
@@ -1155,6 +1160,12 @@ impl<'a> Eff<'a> {
                 Ok(format!("let {} := {} in\n      {}", name, v, tail))
             }
             Stmt::Expr(e, _) => match e {
+                Expr::Assign(a) => {
+                    let lhs = flat_name(&a.left).ok_or("unsupported assignment target")?;
+                    let v = self.tr.expr(&a.right)?;
+                    let tail = self.stmts(rest, k)?;
+                    Ok(format!("let {} := {} in\n      {}", lhs, v, tail))
+                }
                 Expr::Binary(b) if matches!(b.op, BinOp::AddAssign(_)) => {
                     let lhs = flat_name(&b.left).ok_or("unsupported += target")?;
                     let v = self.tr.expr(&b.right)?;
@@ -1212,6 +1223,22 @@ impl<'a> Eff<'a> {
 
     fn oracle_try(&mut self, o: &'a Oracle, args: &[Expr], bind: Option<&str>, rest: &[Stmt], k: &str) -> R<String> {
         if let Some(comp) = o.composite {
+            if let Some(tpl) = comp.strip_prefix("SUM:") {
+                // a pure modelled helper returning `inl (a, b)` or `inr errno`; the binder is a pair pattern
+                let call = self.subst(tpl, args)?;
+                let (b1, b2) = match bind { Some(b) if b.contains(',') => { let mut it = b.split(','); (it.next().unwrap().to_string(), it.next().unwrap().to_string()) }
+                                            _ => return Err("SUM composite needs a pair binder".into()) };
+                self.tr.bound.insert(b1.clone()); self.tr.bound.insert(b2.clone());
+                let tail = self.stmts(rest, k)?;
+                return Ok(format!("match {} with\n      | inr e => {}\n      | inl ({}, {}) =>\n      {}\n      end", call, self.out("(StErr e)"), b1, b2, tail));
+            }
+            if let Some(tpl) = comp.strip_prefix("OUT:") {
+                let call = self.subst(tpl, args)?;
+                let posts = self.posts(o, args, "0")?;
+                let tail = self.stmts(rest, k)?;
+                let fail = self.cfg.out.replace("{st}", "st").replace("{ret}", self.cfg.ret).replace("{tr}", "(tr ++ o_trace w)").replace("{ans}", "(o_rest w)");
+                return Ok(format!("let w := {} in\n      match o_st w with\n      | StOk => let tr := tr ++ o_trace w in let ans := o_rest w in {}\n      {}\n      | st => {}\n      end", call, posts, tail, fail));
+            }
             // a modelled library loop: run it, splice its trace and remaining answers
             let call = self.subst(comp, args)?;
             let posts = self.posts(o, args, "0")?;
@@ -1314,29 +1341,30 @@ fn eff_function(src: &Src, cfg: &EffCfg) -> R<String> {
     for g in cfg.ghosts { tr.bound.insert(g.to_string()); }
     let pnames: Vec<String> = cfg.params.iter().map(|p| p.1.to_string()).collect();
     let loop_name = format!("{}_loop", cfg.gname);
-    let loop_call = format!("{} fuel {} {} {} tr ans", loop_name, pnames.join(" "), mut_names.join(" "), cfg.ghosts.join(" "));
+    let loop_call = format!("{} fuel {} {} {} {} tr ans", loop_name, cfg.fnames, pnames.join(" "), mut_names.join(" "), cfg.ghosts.join(" "));
     let mut eff = Eff { cfg, tr, muts: mut_names.clone(), loop_call: loop_call.clone() };
     let cond = eff.tr.expr(&wl.cond)?;
     let body = eff.stmts(&wl.body.stmts, &loop_call)?;
     let after = eff.ret_value(&tail)?;
     let _ = &eff.muts;
     // rename rust parameter names to the Gallina ones
-    let mut text = format!("Fixpoint {ln} (fuel : nat) ({ps} {ms} {gs} : N) (tr : {tt}) (ans : list xans) {{struct fuel}} : {ot} :=\n  if {c} then\n    match fuel with\n    | O => {oof}\n    | S fuel =>\n      {b}\n    end\n  else {a}.\n",
-        ln = loop_name, ps = pnames.join(" "), ms = mut_names.join(" "), gs = cfg.ghosts.join(" "), tt = cfg.trace_ty, ot = cfg.out_ty,
+    let mut text = format!("Fixpoint {ln} (fuel : nat) {fp} ({ps} {ms} {gs} : N) (tr : {tt}) (ans : list xans) {{struct fuel}} : {ot} :=\n  if {c} then\n    match fuel with\n    | O => {oof}\n    | S fuel =>\n      {b}\n    end\n  else {a}.\n",
+        ln = loop_name, fp = cfg.fparams, ps = pnames.join(" "), ms = mut_names.join(" "), gs = cfg.ghosts.join(" "), tt = cfg.trace_ty, ot = cfg.out_ty,
         c = cond, oof = eff.out("StOutOfFuel"), b = body, a = after);
     for (r, g) in cfg.params { if r != g { text = text.replace(&format!("{} ", r), &format!("{} ", g)).replace(&format!("{})", r), &format!("{})", g)); } }
-    let inits: Vec<String> = muts.iter().map(|m| m.1.clone()).collect();
+    let mut inits: Vec<String> = muts.iter().map(|m| m.1.clone()).collect();
+    for i in inits.iter_mut() { for (r, g) in cfg.params { if i == r { *i = g.to_string(); } } }
     let mut out = String::new();
     writeln!(out, "(* {}:{}  fn {}, translated: the `while` becomes a fuelled fixpoint over the loop-carried variables, every kernel call\n   consumes the next answer and appends one event to the trace, `return Err`/`?`/`continue` end or restart the iteration *)",
              src.path, block.span().start().line, cfg.fname).unwrap();
     out.push_str(&text);
-    writeln!(out, "Definition {g} (fuel : nat) ({ps} {gs} : N) (ans : list xans) : {ot} :=\n  {ln} fuel {ps} {inits} {gs} [] ans.\n",
-             g = cfg.gname, ps = pnames.join(" "), gs = cfg.ghosts.join(" "), ot = cfg.out_ty, ln = loop_name, inits = inits.join(" ")).unwrap();
+    writeln!(out, "Definition {g} (fuel : nat) {fp} ({ps} {gs} : N) (ans : list xans) : {ot} :=\n  {ln} fuel {fnm} {ps} {inits} {gs} [] ans.\n",
+             g = cfg.gname, fp = cfg.fparams, fnm = cfg.fnames, ps = pnames.join(" "), gs = cfg.ghosts.join(" "), ot = cfg.out_ty, ln = loop_name, inits = inits.join(" ")).unwrap();
     Ok(out)
 }
 
 const EFF_RANGE: EffCfg = EffCfg {
-    fname: "copy_range_uspace", gname: "x_copy_range_uspace", params: &[("nbytes", "nbytes"), ("off", "off")], ghosts: &[],
+    fname: "copy_range_uspace", gname: "x_copy_range_uspace", params: &[("nbytes", "nbytes"), ("off", "off")], fparams: "", fnames: "", ghosts: &[],
     oracles: &[
         Oracle { callee: "read_bytes", event: "URead {a2} {l1}", post: &[], composite: None },
         Oracle { callee: "write_bytes", event: "UWrite {a2} {a2} {l1}", post: &[], composite: None },
@@ -1344,7 +1372,7 @@ const EFF_RANGE: EffCfg = EffCfg {
     ignore: &[], out: "mkU {st} {ret} {tr} {ans}", trace_ty: "utrace", out_ty: "u_out", ret: "written",
 };
 const EFF_BYTES: EffCfg = EffCfg {
-    fname: "copy_bytes_uspace", gname: "x_copy_bytes_uspace", params: &[("nbytes", "nbytes")], ghosts: &["rpos", "wpos"],
+    fname: "copy_bytes_uspace", gname: "x_copy_bytes_uspace", params: &[("nbytes", "nbytes")], fparams: "", fnames: "", ghosts: &["rpos", "wpos"],
     oracles: &[
         Oracle { callee: "read", event: "URead rpos {l0}", post: &[], composite: None },
         Oracle { callee: "write_all", event: "", post: &[("rpos", "(rpos + {l0})"), ("wpos", "(wpos + {l0})")],
@@ -1352,8 +1380,17 @@ const EFF_BYTES: EffCfg = EffCfg {
     ],
     ignore: &[], out: "mkU {st} {ret} {tr} {ans}", trace_ty: "utrace", out_ty: "u_out", ret: "written",
 };
+const EFF_COPY_SPARSE: EffCfg = EffCfg {
+    fname: "copy_sparse", gname: "x_copy_sparse", params: &[("self_metadata_len", "flen"), ("bsize", "bsize")],
+    fparams: "(sd sh : N -> seek_ans)", fnames: "sd sh", ghosts: &[],
+    oracles: &[
+        Oracle { callee: "next_sparse_segments", event: "", post: &[], composite: Some("SUM:next_segment sd sh flen {a2}") },
+        Oracle { callee: "copy_bytes", event: "", post: &[], composite: Some("OUT:copy_bytes (S (List.length ans)) bsize {a0} 0 next_data ans") },
+    ],
+    ignore: &[], out: "mkOut {st} {tr} {ans}", trace_ty: "xtrace", out_ty: "loop_out", ret: "len",
+};
 const EFF_COPY_BYTES: EffCfg = EffCfg {
-    fname: "copy_bytes", gname: "x_copy_bytes", params: &[("len", "len"), ("bsize", "bsize")], ghosts: &["cur"],
+    fname: "copy_bytes", gname: "x_copy_bytes", params: &[("len", "len"), ("bsize", "bsize")], fparams: "", fnames: "", ghosts: &["cur"],
     oracles: &[
         Oracle { callee: "copy_file_bytes", event: "mkReq cur cur {a2}", post: &[("cur", "(cur + {v})")], composite: None },
     ],
@@ -1366,7 +1403,7 @@ fn main() {
     let root = Path::new(&root);
     let mut out = String::new();
     out.push_str("(* Extracted.v — GENERATED by /verif/xlate from the current source of the repository on every run.\n   Do not edit.  See xlate/src/main.rs for the supported Rust subset; coq/proofs/ExtractedOk.v proves that\n   every definition below equals the hand-written model's. *)\n");
-    out.push_str("From XcpModel Require Import Base Extents CopyLoop Uspace.\nFrom Coq Require Import String.\nLocal Open Scope string_scope.\nLocal Open Scope N_scope.\nLocal Open Scope list_scope.\n\n");
+    out.push_str("From XcpModel Require Import Base Extents Sparse CopyLoop Uspace.\nFrom Coq Require Import String.\nLocal Open Scope string_scope.\nLocal Open Scope N_scope.\nLocal Open Scope list_scope.\n\n");
     let mut failures = vec![];
     let mut emit = |label: &str, r: R<String>, out: &mut String| match r {
         Ok(s) => { out.push_str(&s); out.push('\n'); }
@@ -1436,6 +1473,7 @@ fn main() {
                 "the steps of CopyHandle::copy_file (4 clone attempt, 30 sparseness test, 31 sparse walk, 32 plain loop)"), &mut out);
             emit("copy_bytes", copy_bytes_loop(&src), &mut out);
             emit("copy_bytes (loop)", eff_function(&src, &EFF_COPY_BYTES), &mut out);
+            emit("copy_sparse (loop)", eff_function(&src, &EFF_COPY_SPARSE), &mut out);
             emit("finalise_copy", finalise_order(&src).map(|(v, l)| {
                 let items: Vec<String> = v.iter().map(|(c, n)| format!("({}, {})", c, n)).collect();
                 format!("(* {}:{}  finalise_copy: (step, guard negated) in program order; 6 owner, 8 xattrs+permissions, 9 timestamps, 10 fsync *)\nDefinition x_finalise_order : list (N * bool) := [{}].\n",
